@@ -662,3 +662,71 @@ Proof.
   - rewrite Hs, app_length, Htl, Hcl. unfold int_max in *. lia.
   - rewrite Hs, app_length, Htl. lia.
 Qed.
+
+(* ===================== ghash() as coded = the SP 800-38D definition ===================== *)
+Section GhashSpec.
+  Variable H : gf.
+  Notation step := (ghash_step H).
+  Notation foldn := (MD.foldn gf step 16).
+
+  Lemma pad_mult16_length d : length (pad_mult16 d) mod 16 = 0 /\ length (pad_mult16 d) / 16 = (length d + 15) / 16.
+  Proof. unfold pad_mult16. rewrite app_length, zeros_length. lia. Qed.
+
+  (* the `while (len)` loop = folding the zero-padded data block by block *)
+  Lemma absorb_spec_foldn X d :
+    absorb_spec H X d = foldn (length (pad_mult16 d) / 16) X (pad_mult16 d).
+  Proof.
+    unfold absorb_spec. set (k := length d / 16). remember (skipn (k * 16) d) as r eqn:Edef.
+    assert (Hdm : length d = k * 16 + length d mod 16)
+      by (pose proof (Nat.div_mod (length d) 16 ltac:(lia)); subst k; lia).
+    assert (Hrm : length d mod 16 < 16) by (apply Nat.mod_upper_bound; lia).
+    assert (Hr : length r = length d mod 16) by (subst r; rewrite skipn_length; lia).
+    assert (Hpre : length (firstn (k * 16) d) = k * 16) by (apply firstn_length_le; lia).
+    destruct r as [|b r0].
+    - (* no partial block *)
+      cbn [length] in Hr. unfold pad_mult16. rewrite <- Hr.
+      change ((16 - 0) mod 16) with 0. cbn [zeros]. rewrite app_nil_r. reflexivity.
+    - set (r := b :: r0) in *.
+      assert (Hnz : length d mod 16 <> 0) by (rewrite <- Hr; unfold r; cbn [length]; lia).
+      unfold pad_mult16.
+      replace ((16 - length d mod 16) mod 16) with (16 - length r) by lia.
+      assert (Hd : d ++ zeros (16 - length r) = firstn (k * 16) d ++ pad16 r).
+      { unfold pad16. rewrite Edef, app_assoc, firstn_skipn. reflexivity. }
+      rewrite Hd. rewrite app_length, Hpre.
+      assert (Hp16 : length (pad16 r) = 16) by (unfold pad16; rewrite app_length, zeros_length; lia).
+      rewrite Hp16. replace ((k * 16 + 16) / 16) with (k + 1) by lia.
+      rewrite (MD.foldn_snoc gf step 16 0) by (first [exact Hpre | exact Hp16 | lia]).
+      f_equal. rewrite <- (firstn_skipn (k * 16) d) at 1. rewrite <- Edef.
+      apply (MD.foldn_app_l gf step 16 0); lia.
+  Qed.
+End GhashSpec.
+
+Lemma foldn_app_blocks H ka kc X A C : length A = ka * 16 ->
+  MD.foldn gf (ghash_step H) 16 (ka + kc) X (A ++ C) =
+  MD.foldn gf (ghash_step H) 16 kc (MD.foldn gf (ghash_step H) 16 ka X A) C.
+Proof.
+  intros HA. rewrite MD.foldn_add. rewrite (MD.foldn_app_l gf (ghash_step H) 16 0) by lia.
+  rewrite skipn_app, <- HA, skipn_all, Nat.sub_diag, skipn_O. reflexivity.
+Qed.
+
+Lemma ghash_step_unfold H X blk : ghash_step H X blk = gf128_mul (gf_add X (gf_from_bytes blk)) H.
+Proof. unfold ghash_step. reflexivity. Qed.
+
+(* ---- ghash() as coded = GHASH_H(A || 0* || C || 0* || [len(A)]_64 || [len(C)]_64) of SP 800-38D ---- *)
+Theorem ghash_eq_spec h aad c : ghash h aad c = ghash_spec h aad c.
+Proof.
+  unfold ghash, ghash_spec. set (H := gf_from_bytes h).
+  rewrite !ghash_absorb_len, !absorb_spec_foldn.
+  set (A := pad_mult16 aad). set (C := pad_mult16 c).
+  set (L := len_block (N.of_nat (length aad)) (N.of_nat (length c))).
+  destruct (pad_mult16_length aad) as [HAm _]. destruct (pad_mult16_length c) as [HCm _]. fold A in HAm. fold C in HCm.
+  set (ka := length A / 16). set (kc := length C / 16).
+  assert (HA : length A = ka * 16) by (pose proof (Nat.div_mod (length A) 16 ltac:(lia)); subst ka; lia).
+  assert (HC : length C = kc * 16) by (pose proof (Nat.div_mod (length C) 16 ltac:(lia)); subst kc; lia).
+  assert (HL : length L = 16) by reflexivity.
+  rewrite !app_length, HL.
+  replace ((length A + (length C + 16)) / 16) with ((ka + kc) + 1) by lia.
+  rewrite app_assoc.
+  rewrite (MD.foldn_snoc gf (ghash_step H) 16 0) by (first [rewrite app_length; lia | exact HL | lia]).
+  rewrite foldn_app_blocks by exact HA. rewrite ghash_step_unfold. reflexivity.
+Qed.
